@@ -122,8 +122,8 @@ func appendUnique(dst []string, xs ...string) []string {
 	return dst
 }
 
-func (e *entry) withTag() *entry          { e.tagged = true; return e }
-func (e *entry) withMax(n int) *entry     { e.maxSamples = n; return e }
+func (e *entry) withTag() *entry           { e.tagged = true; return e }
+func (e *entry) withMax(n int) *entry      { e.maxSamples = n; return e }
 func (e *entry) from(src ...string) *entry { e.sources = appendUnique(e.sources, src...); return e }
 
 // ---- sources and the pool ---------------------------------------------------------------------
